@@ -11,4 +11,8 @@ PROPS = {
         rapid("caps-race", "TestC18Caps", dict(shards=8, checks=10), dict(shards=8, checks=60, timeout=3000), race=True, tiers=["thorough"]),
         rapid("close-race", "TestC18Close", dict(shards=8, checks=20), dict(shards=8, checks=150, timeout=3000), race=True, tiers=["thorough"]),
     ]),
+    "C12": dict(pkg="net", level="exploration", stages=[
+        rapid("rapid", "TestC12", dict(shards=16, checks=3, timeout=1200), dict(shards=16, checks=40, timeout=7200)),
+        rapid("race", "TestC12", dict(shards=4, checks=2), dict(shards=4, checks=10, timeout=7200), race=True, tiers=["thorough"]),
+    ]),
 }
